@@ -84,11 +84,42 @@ SHIMS = {
     "time": Shim(_real_time, time=lambda: 1.6e9 + _sim_now(),
                  monotonic=_sim_now, perf_counter=_sim_now,
                  sleep=_sim_sleep),
-    "queue": Shim(_real_queue_mod, Queue=SimQueue),
-    "threading": Shim(_real_threading, Lock=SimLock, Thread=SimThread),
+    "queue": Shim(_real_queue_mod, Queue=SimQueue, SimpleQueue=SimQueue,
+                  LifoQueue=SimQueue, PriorityQueue=SimQueue),
+    "threading": Shim(_real_threading, Lock=SimLock, Thread=SimThread,
+                      RLock=sched.SimRLock, Event=sched.SimEvent,
+                      Condition=sched.SimCondition,
+                      Semaphore=sched.SimSemaphore,
+                      BoundedSemaphore=sched.SimSemaphore,
+                      Timer=sched.SimTimer),
     "socket": Shim(_real_socket, socket=wire.SimSocket),
     "select": Shim(_real_select, select=wire.SelectModule.select),
 }
+import random as _real_random  # noqa: E402
+import concurrent.futures as _real_cf  # noqa: E402
+
+
+class _SeededRandomModule(types.ModuleType):
+    """`random` as seen by the code under test: one generator per run,
+    seeded from the run's choices."""
+
+    def __init__(self):
+        super().__init__("random")
+        self._rng = _real_random.Random(0)
+
+    def reseed(self, n):
+        self._rng = _real_random.Random(n)
+
+    def __getattr__(self, name):
+        if name in ("Random", "SystemRandom"):
+            return getattr(_real_random, name)
+        return getattr(self._rng, name)
+
+
+RANDOM_SHIM = _SeededRandomModule()
+SHIMS["random"] = RANDOM_SHIM
+SHIMS["concurrent.futures"] = Shim(_real_cf,
+                                   ThreadPoolExecutor=sched.SimExecutor)
 GDB_MODULES = ["ppci.binutils.dbg.gdb.rsp", "ppci.binutils.dbg.gdb.transport",
                "ppci.binutils.dbg.gdb.client"]
 _CODE = {}
@@ -143,7 +174,11 @@ BENIGN_FOR_DRIVER = {"c2p_corrupt_body", "c2p_corrupt_csum", "spurious_nack",
 def gen_payload(ch, maxlen=12, long_ok=False):
     if long_ok and ch.chance(1, 3, "longpayload"):
         # bursts well beyond any plausible buffer size (memory dumps)
-        n = ch.pick([40, 130, 260, 300, 600], "longlen")
+        n = ch.pick([40, 130, 252, 260, 300, 508, 600, 1020], "longlen")
+        if n in (252, 508, 1020):
+            # frame length ($ + payload + # + 2) is exactly a power of two:
+            # plain characters only, so that escaping adds nothing
+            return "".join(ch.pick(PLAIN, "exactch") for _ in range(n))
     else:
         n = ch.weighted([2, 4, 4, 3, 3, 2, 2, 1, 1, 1, 1, 1, 1][: maxlen + 1],
                         "plen")
@@ -172,6 +207,7 @@ def gen_config(ch):
     cfg["cut_num"] = ch.pick([0, 1, 4], "cut_num")
     cfg["horizon_us"] = ch.pick([0, 1000], "horizon")
     cfg["weighted_sched"] = ch.weighted([1, 1], "wsched")
+    cfg["line_preempt"] = bool(ch.chance(1, 8, "linepreempt"))
     cfg["ack_delay_us"] = ch.pick([0, 2000, 50000], "ackdelay")
     cfg["long_payloads"] = bool(ch.chance(1, 24, "longrun"))
     lp = cfg["long_payloads"]
@@ -199,6 +235,10 @@ def gen_config(ch):
         cfg["enabled"] = [k for k in cfg["enabled"] if k in BENIGN_FOR_DRIVER]
         cfg["peer_packets"] = []  # well behaved stub: only replies
         cfg["slow_replies"] = bool(ch.chance(1, 3, "slowreplies"))
+        # a halted stub that announces itself with a stop reply as soon as
+        # the connection is up
+        cfg["greeting"] = ch.pick([None, None, None, "S05", "T0500:44332211;"],
+                                  "greeting")
         cfg["callers"] = []
         nb = 1 + ch.weighted([3, 2], "b_ncallers")
         cfg["bops"] = []
@@ -229,7 +269,8 @@ def gen_config(ch):
                 if k == "read_mem":
                     size = 1 + ch.draw(4, "b_size")
                     if lp and ch.chance(1, 2, "b_bigread"):
-                        size = ch.pick([70, 128, 300, 600], "b_bigsize")
+                        size = ch.pick([70, 126, 128, 300, 510, 600],
+                                       "b_bigsize")
                     ops.append((k, addr, size))
                 elif k == "write_mem":
                     n = 1 + ch.draw(3, "b_wlen")
@@ -560,6 +601,10 @@ class World:
                              on_deliver=self.peer.on_bytes)
         self.p2c = wire.Link(self.sim, "p2c", cfg["latency_us"],
                              cfg["jitter_us"], cfg["cut_num"])
+        if cfg.get("greeting"):
+            g = cfg["greeting"].encode()
+            self.sim.after(self.ch.draw(3000, "greetdelay"),
+                           lambda: self.peer.enqueue(g), "stub.greeting")
         return self.p2c, self.c2p
 
     def on_message(self, msg):
@@ -734,6 +779,13 @@ class World:
         drv._recv_message = recv
         self.peer.reply_fn = self.stub_reply
         drv.connect()
+        if cfg.get("greeting"):
+            # let the driver digest the greeting (it queries the registers)
+            # before commands are issued: reply pairing under concurrent
+            # commands is not part of the statement
+            sim.block(lambda: drv.status == STOPPED, 10_000_000,
+                      "main.wait_greeting")
+            sim.sleep(100_000)
         drv.status = STOPPED
         threads = [SimThread(target=self.bcaller, args=(ops,),
                              name=f"caller{i}")
@@ -1088,7 +1140,11 @@ def judge_driver(w, complete, closed, clean, died, got, probe):
 def run_one(ch, render=False):
     cfg = gen_config(ch)
     w = World(ch, cfg)
+    RANDOM_SHIM.reseed(ch.draw(1 << 30, "randomseed"))
     fresh_process_state()
+    if cfg["line_preempt"]:
+        w.sim.enable_line_preemption(
+            [m.__file__ for m in (rsp_mod, transport_mod, client_mod)])
     main = SimThread(target=w.main, name="main")
     w.sim.spawn(main)
     verdict = w.sim.run()
@@ -1133,7 +1189,7 @@ def classify(oracle_id, detail, res):
 
 class Spec:
     prop = PROP
-    tiers = {"quick": 30_000, "thorough": 1_500_000}
+    tiers = {"quick": 20_000, "thorough": 1_200_000}
     selftest_samples = 200
     fresh_samples = 60
     shrink_runs = 1200
